@@ -593,7 +593,7 @@ def alg_returns_init (p : Params) (ops : List View) : Built :=
   { prog := fr.map (fun _ => Step.fresh [] (List.range b)) ++ (regs p.m ini.length).map .alias ++
             p.dims.map .squeeze,
     res := fr.zip (regs b fr.length) ++ ini.zip (regs (b + fr.length) ini.length) ++
-           vw.zip (regs (b + fr.length + ini.length) vw.length) }
+           vw.zip (regs (b + fr.length + ini.length) p.dims.length) }
 
 def alg_returns_init_pre (p : Params) (b : Nat) : Bool :=
   decide (p.m + ((((p.flag.splitOn ";").getD 1 "").splitOn ",").filter (· != "")).length ≤ b) &&
